@@ -291,14 +291,26 @@ func checkC03(c *Ctx) {
 	// C03.7 OnLocalTimeout: a signed timeout implies StopVoting(currentView) before leaving
 	olt := p.Method("protocol/synchronizer", "Synchronizer", "OnLocalTimeout")
 	if olt != nil && stopVoting != nil {
-		fl := NewFlow(p, olt)
-		ruleCalls := callsIn(olt, false, func(cc *ssa.CallCommon) bool {
-			return cc.IsInvoke() && cc.Method.Name() == "LocalTimeoutRule"
-		})
+		// the timeout may be created in OnLocalTimeout or in a private helper of its package: the rule is
+		// evaluated in the function that calls LocalTimeoutRule (leaving it counts as leaving)
+		type ruleSite struct {
+			host *ssa.Function
+			call ssa.CallInstruction
+		}
+		var ruleCalls []ruleSite
+		for _, hf := range helperClosure(p, olt, 2) {
+			for _, rc := range callsIn(hf, false, func(cc *ssa.CallCommon) bool {
+				return cc.IsInvoke() && cc.Method.Name() == "LocalTimeoutRule"
+			}) {
+				ruleCalls = append(ruleCalls, ruleSite{hf, rc})
+			}
+		}
 		if len(ruleCalls) == 0 {
 			c.Unresolved("C03.7", "OnLocalTimeout", "no LocalTimeoutRule call")
 		}
-		for _, rc := range ruleCalls {
+		for _, rs := range ruleCalls {
+			rc, host := rs.call, rs.host
+			fl := NewFlow(p, host)
 			viewArg := fl.K.Key(rc.Common().Args[0])
 			// find the edge on which the error result is nil
 			okStop := func(in ssa.Instruction) bool {
@@ -315,7 +327,7 @@ func checkC03(c *Ctx) {
 			}
 			bad := ""
 			found := false
-			for _, b := range olt.Blocks {
+			for _, b := range host.Blocks {
 				for _, succ := range b.Succs {
 					ef := fl.edgeFacts(b, succ)
 					for _, f := range ef {
